@@ -254,6 +254,14 @@ pub fn after_step(b: &Built, spec: &CaseSpec, st: &mut State, w: &Which) {
                 c08_step(b, g, st, *n, from, to, o)
             }
         },
+        Topo::MergeDup(_) if w.c08 => {
+            for o in 0..b.probes.len() {
+                if let Some(se) = edge_of_probe(g, o) {
+                    let mem = members_listed(g, &b.info.members, o);
+                    c08_core(g, st, &b.op, se, mem, from, to);
+                }
+            }
+        },
         Topo::Concat(n) if w.c09 && *n >= 1 => {
             for o in 0..b.probes.len() {
                 c09_step(b, g, st, *n, from, to, o)
@@ -322,7 +330,7 @@ fn c04_step(b: &Built, g: &mut Inner, st: &mut State, from: usize, to: usize) {
             let owner = g.edges[e].owner;
             let culprit = g.edges[e].below.clone();
             bump(st, "c04.subscription");
-            let repeated_inner = b.info.repeat_inner && p == 1;
+            let repeated_inner = (b.info.repeat_inner && p == 1) || (matches!(b.topo, Topo::MergeDup(_)) && p == 0);
             if !matches!(b.topo, Topo::Share(_)) && !repeated_inner {
                 // at most once per subscription of the output
                 let dup = (0..k).any(|kk| {
@@ -814,6 +822,22 @@ pub fn edge_of_puppet_owned(g: &Inner, p: usize, owner: usize) -> Option<EdgeId>
 
 fn members(g: &Inner, n: usize, owner: usize) -> Vec<Option<Member>> {
     (0..n).map(|p| edge_of_puppet_owned(g, p, owner).map(|e| Member { edge: e, t: times(g, e) })).collect()
+}
+
+/// members given as a list of puppet ids in which an id may occur more than once (the same source
+/// value listed twice): the k-th occurrence of an id is that puppet's k-th subscription made for
+/// this output subscription
+fn members_listed(g: &Inner, ids: &[usize], owner: usize) -> Vec<Option<Member>> {
+    let mut seen: std::collections::BTreeMap<usize, usize> = Default::default();
+    ids.iter()
+        .map(|p| {
+            let nth = *seen.entry(*p).and_modify(|x| *x += 1).or_insert(0);
+            (0..g.edges.len())
+                .filter(|i| matches!(g.edges[*i].role, Role::Puppet(pp, _) if pp as usize == *p) && g.edges[*i].owner == owner as i32)
+                .nth(nth)
+                .map(|e| Member { edge: e, t: times(g, e) })
+        })
+        .collect()
 }
 
 /// data emitted by the given puppet edges while the sink `se` was open, in time order
